@@ -206,6 +206,13 @@ def views(exe, root, seed, stats):
             if r.rc == 0:
                 verify_pool(fx.decode(a), '(second run, after %d entries moved to another disk)' % moved)
                 stats['pool_reruns'] = stats.get('pool_reruns', 0) + 1
+    # ---- pool on an up-to-date pool directory that holds EMPTY directories and not a single stale link (left by hand,
+    # by another tool, or by a pool run that died between removing the stale links and cleaning the directories)
+    if not problems:
+        for e in ('handmade/empty', 'old/2019/empty', 'lonely'):
+            os.makedirs(os.path.join(a.pool, e), exist_ok=True)
+        s.log('empty directories created in the pool by hand (no stale link present)')
+        verify_pool(fx.decode(a), '(run on an up-to-date pool holding only additional empty directories)')
     cfg = 'ndisks=%d seed=%d' % (a.ndisks, seed)
     hist = '\n'.join(s.history)
     a.destroy()
@@ -269,7 +276,7 @@ def main(tier, seed):
             chk.violation('C20 static obligation failed: ' + o[0], o[0] + '\n' + o[2], False, 'static')
     chk.evaluations = sum(v for v in stats.values())
     chk.distinct = stats['esc'] + stats['status_stripes']
-    chk.rule = ('ESC: every 1-byte string, all 2-byte strings over 21 interesting bytes, 3-byte strings over 8, 300 random long strings: esc_tag/esc_shell of the binary vs the Lean model + decode-back and no-raw-separator predicates. VIEWS: %d arrays with names of arbitrary bytes, duplicate groups of 2-4 files across disks, links, interrupted syncs, bad marks: list standard output (one line per recorded file), status -G per-stripe dump and counters vs the Lean-decoded content, dup groups vs real contents, pool with stale links / empty dirs / a foreign file pre-existing' % n)
+    chk.rule = ('ESC: every 1-byte string, all 2-byte strings over 21 interesting bytes, 3-byte strings over 8, 300 random long strings: esc_tag/esc_shell of the binary vs the Lean model + decode-back and no-raw-separator predicates. VIEWS: %d arrays with names of arbitrary bytes, duplicate groups of 2-4 files across disks, links, interrupted syncs, bad marks: list standard output (one line per recorded file), status -G per-stripe dump and counters vs the Lean-decoded content, dup groups vs real contents, pool with stale links / empty dirs / a foreign file pre-existing; pool run again on an up-to-date pool that holds only additional empty directories' % n)
     chk.samples = [dict(stats)]
     chk.corr['E2E-REPORT'] = dict(stats)
     chk.finish()
